@@ -49,6 +49,11 @@ int main(int argc, char** argv) {
         else run_case(kase, {{o.name, val}}, {{o.name, other}});
     }
     R.bound_done("every option singly x 2 values x {command line, parent config, both}");
+    for (auto& sh : SHORTS) for (int v = 0; v < 2; v++) {
+        const Opt* o = find(sh.canonical); std::string kase = std::string("short ") + sh.sh + " v=" + std::to_string(v);
+        if (R.mine(kase)) run_case(kase, {{sh.sh, v ? o->v2 : o->v1}}, {});
+    }
+    R.bound_done("every one-letter option name on the command line x 2 values");
     // aliases in the parent config, alone and against the canonical name on the command line
     for (auto& al : ALIASES) for (int v = 0; v < 2; v++) for (int withcli = 0; withcli < 2; withcli++) {
         const Opt* o = find(al.canonical); const std::string val = v ? o->v2 : o->v1, other = v ? o->v1 : o->v2;
@@ -72,6 +77,20 @@ int main(int argc, char** argv) {
         run_case(kase, cli, cfg);
     }
     R.bound_done(std::string("all pairs of options x ") + (T ? "4" : "2") + " source combinations");
+    if (T) {
+        for (size_t i = 0; i < NOPTS; i++) for (size_t j = i + 1; j < NOPTS; j++) for (size_t k = j + 1; k < NOPTS; k++) {
+            std::string base = std::string("triple ") + OPTS[i].name + "+" + OPTS[j].name + "+" + OPTS[k].name;
+            if (R.out_of_time()) { R.not_completed = base; goto done; }
+            for (int pl : {1, 2, 4, 7, 0}) {     // which of the three sit on the command line (bit mask); the rest in the parent config
+                const std::string kase = base + " pl=" + std::to_string(pl);
+                if (!R.mine(kase)) continue;
+                std::vector<Setting> cli, cfg; const size_t ix[3] = {i, j, k};
+                for (int m = 0; m < 3; m++) ((pl >> m) & 1 ? cli : cfg).push_back({OPTS[ix[m]].name, (ix[m] + pl) % 2 ? OPTS[ix[m]].v1 : OPTS[ix[m]].v2});
+                run_case(kase, cli, cfg);
+            }
+        }
+        R.bound_done("all unordered triples of options x 5 placements");
+    }
 done:
     return R.finish();
 }
